@@ -9,12 +9,29 @@
    Hypothesis op_kind_ok: the kind passed to an allocation is one of the five non-Free values of
    Go's (unexported) suballocationType enum.  The model takes any integer there; the theorem is
    false of the model for integers outside the enum (C09_kinds_outside_enum_refuted) — not a
-   defect of the Go code, whose callers cannot produce such a value. *)
+   defect of the Go code, whose callers cannot produce such a value.
+
+   The page counters are uint32 (mod 2^32 in Gran.v).  At most g allocations can be counted on a
+   page of g bytes, so for g <= 2^32 a counter never wraps; C09_tlsf_wide states the theorem for
+   that whole range, C09_tlsf is its restriction to the range of the property (1 .. 64 KiB). *)
 From Coq Require Import ZArith List Bool Lia.
 From Arsenal Require Import Util Bits Gran Tlsf TlsfStep TlsfProps GranInv GranTlsf.
 From Arsenal Require Linear LinearInv LinearStep GranLinear.
 Import ListNotations.
 Open Scope Z_scope.
+
+Theorem C09_tlsf_wide : forall gr size ops,
+  cfg_ok gr size -> 1 <= gr <= 4294967296 -> Forall op_ok ops -> Forall op_kind_ok ops ->
+  let t := run (tlsf_init HVam gr size) ops in
+  forall a b, In a (live t) -> In b (live t) -> a <> b ->
+    conflict (b_kind a) (b_kind b) = true ->
+    forall x y, b_off a <= x < b_off a + b_size a -> b_off b <= y < b_off b + b_size b ->
+                x / gr <> y / gr.
+Proof.
+  exact (fun gr size ops Hc Hr Hok Hk =>
+           tlsf_gran_sound gr _ (reach_GInv_wide gr size ops Hc Hr Hok Hk)).
+Qed.
+Print Assumptions C09_tlsf_wide.
 
 Theorem C09_tlsf : forall gr size ops,
   cfg_ok gr size -> 1 <= gr <= 65536 -> Forall op_ok ops -> Forall op_kind_ok ops ->
@@ -25,7 +42,7 @@ Theorem C09_tlsf : forall gr size ops,
                 x / gr <> y / gr.
 Proof.
   exact (fun gr size ops Hc Hr Hok Hk =>
-           tlsf_gran_sound gr _ (reach_GInv gr size ops Hc Hr Hok Hk)).
+           C09_tlsf_wide gr size ops Hc ltac:(lia) Hok Hk).
 Qed.
 Print Assumptions C09_tlsf.
 
@@ -66,7 +83,7 @@ Theorem C09_tlsf_high_gran : forall gr size ops,
     conflict (b_kind a) (b_kind b) = true -> no_shared_page gr a b.
 Proof.
   exact (fun gr size ops Hc Hr Hok Hk =>
-           tlsf_high_gran gr _ (reach_GInv gr size ops Hc ltac:(lia) Hok Hk) Hr).
+           tlsf_high_gran gr _ (reach_GInv gr size ops Hc ltac:(lia) Hok Hk) ltac:(lia)).
 Qed.
 Print Assumptions C09_tlsf_high_gran.
 
